@@ -1,6 +1,7 @@
 package main
 
 import (
+	"go/token"
 	"fmt"
 	"go/types"
 	"sort"
@@ -121,6 +122,31 @@ func runC06(c *Ctx, r *Report) {
 			if why, ok := refStoreExceptions[key]; ok {
 				r.OkWhy("C06.R4", ssaFuncName(f.Fn), f.Desc, c.Pos(instrPos(f.At)), "exception: "+why)
 				continue
+			}
+			// the same exception wherever the key is built: a store into the Args array of an eval.CacheKey of a
+			// value on the true edge of Hashable(value)
+			if st, ok := f.At.(*ssa.Store); ok {
+				if ia, ok := st.Addr.(*ssa.IndexAddr); ok {
+					if fa, ok := ia.X.(*ssa.FieldAddr); ok {
+						if n := namedStruct(fa.X.Type()); n != nil && n.Obj().Name() == "CacheKey" && shortPkg(n.Obj().Pkg()) == "eval" {
+							hashable := c.Fn("object", "Hashable")
+							guarded := false
+							for _, cc := range controlling(st.Block()) {
+								cond, edge := cc.Cond, cc.Edge
+								if u, ok := cond.(*ssa.UnOp); ok && u.Op == token.NOT {
+									cond, edge = u.X, 1-edge
+								}
+								if hc, ok := cond.(*ssa.Call); ok && isCallTo(hc, hashable) && hc.Common().Args[0] == st.Val && edge == 0 {
+									guarded = true
+								}
+							}
+							if guarded {
+								r.OkWhy("C06.R4", ssaFuncName(f.Fn), f.Desc, c.Pos(instrPos(f.At)), "exception: memoisation key, not a container; stored only on the true edge of Hashable(value), and Hashable rejects references (C04.R4)")
+								continue
+							}
+						}
+					}
+				}
 			}
 			if st, ok := f.At.(*ssa.Store); ok {
 				if ia, ok := st.Addr.(*ssa.IndexAddr); ok {
